@@ -66,9 +66,10 @@ class Scenario:
                          "".join("<method>%s</method>" % m for m in compression))
         if unknown:
             parts.append("<ver xmlns='urn:xmpp:features:rosterver'/>")
-        if self.rng.random() < 0.06:
+        if self.rng.random() < 0.12:
             # look-alikes in foreign namespaces: not offers
-            parts.append(self.rng.choice(["<sm xmlns='urn:xmpp:sm:2'/>", "<bind xmlns='urn:example:bind'/>",
+            parts.append(self.rng.choice(["<sm xmlns='urn:xmpp:sm:2'/>", "<sm xmlns='urn:xmpp:sm:2'/>",
+                                          "<bind xmlns='urn:example:bind'/>",
                                           "<session xmlns='urn:example:session'/>", "<starttls xmlns='urn:example:tls'/>",
                                           "<mechanisms xmlns='urn:example:sasl'><mechanism>PLAIN</mechanism></mechanisms>",
                                           "<compression xmlns='urn:example:compress'><method>zlib</method></compression>"]))
